@@ -4,7 +4,6 @@
 
 from __future__ import annotations
 
-import functools
 from typing import final
 
 from ..utility._csharp_compatibility import _private, _sealed
@@ -19,7 +18,7 @@ class _EraMeta(type):
     An important implementation detail is that equality checks in the codebase
     depend on these properties returning the same instance, because __eq__ is not
     implemented (so we rely on reference equality). Era._ctor() is called from
-    each of these properties, and is decorated with `@functools.cache` to provide
+    each of these properties, and keeps one instance per era (registered atomically) to provide
     just that behaviour.
 
     Why not use functools.cached_property?
@@ -105,13 +104,14 @@ class Era(metaclass=_EraMeta):
     __name: str
     __resource_identifier: str
 
+    __INSTANCES: dict[tuple[str, str], Era] = {}
+
     @classmethod
-    @functools.cache
     def _ctor(cls, name: str, resource_identifier: str) -> Era:
         """Internal constructor implementation.
 
         Note: This constructor is cached and will return the same instance each
-        time it is called with the same arguments.
+        time it is called with the same arguments, also when called concurrently.
 
         This is an implementation detail which is particular to pyoda-time and is
         not present in the mother project. (Although it is intended to mimic the
@@ -125,10 +125,15 @@ class Era(metaclass=_EraMeta):
         Why not use functools.cached_property? Well, maybe in future:
         https://discuss.python.org/t/finding-a-path-forward-for-functools-cached-property/23757
         """
+        key = (name, resource_identifier)
+        existing = cls.__INSTANCES.get(key)
+        if existing is not None:
+            return existing
         self = super().__new__(cls)
         self.__name = name
         self.__resource_identifier = resource_identifier
-        return self
+        # dict.setdefault is atomic: if two threads get here together, both receive the instance that was registered.
+        return cls.__INSTANCES.setdefault(key, self)
 
     def __str__(self) -> str:
         """Return the name of this era."""
